@@ -233,6 +233,10 @@ func (e *Engine) netBuiltin(env *Env, name string, ex *SExpr) (Val, bool) {
 		return Val{}, false
 	}
 	switch name {
+	case "beint":
+		// beint(b): the non-negative integer with big-endian representation b (what big.Int.SetBytes computes)
+		reg.declareFun("lib!beint", []string{"Str"}, "Int")
+		return Val{S: "(lib!beint " + str(arg(0)) + ")", T: tInt}, true
 	case "bigval":
 		// bigval(x): the integer value of a *big.Int
 		return Val{S: bigVal(env.st, arg(0).S), T: tInt}, true
